@@ -1,4 +1,5 @@
 import PyrefactModel.Offsets
+import PyrefactModel.Charnos
 /-!
 # C13 — match objects are geometrically coherent (offset algebra)
 
@@ -42,6 +43,36 @@ theorem lineno_col_roundtrip (s0 : Nat) (rest : List Nat) (p : Nat) (hp : s0 ≤
 /-- the physical lines partition the text: nothing lost, nothing invented, for both line-break sets -/
 theorem lines_partition (brk : Char → Bool) (src : List Char) : (splitLines brk src).flatten = src :=
   splitLines_flatten brk src
+
+/-- **`get_charnos` in full** (line table, byte columns, blank trimming, decorator look-behind, `keep_first_indent`): the
+reported range lies inside the text for every source, all positions on existing lines and every flag combination -/
+theorem charnos_inside (src : List Char) (first : Charnos.Pos) (endp : Option Charnos.Pos) (isDef keepIndent : Bool)
+    (h1 : 1 ≤ first.lineno)
+    (he : ∀ e, endp = some e → 1 ≤ e.lineno ∧ e.lineno ≤ (splitLines astBreak src).length) :
+    (Charnos.getCharnos src first endp isDef keepIndent).1 ≤ src.length ∧
+      (Charnos.getCharnos src first endp isDef keepIndent).2 ≤ src.length :=
+  Charnos.getCharnos_inside src first endp isDef keepIndent h1 he
+
+/-- **Trimming never cuts a non-blank character**: of a node text with a non-blank character a non-empty span survives, what
+is cut off in front and behind consists of blanks only, and the span begins and ends with a non-blank character -/
+theorem trim_preserves_nonblank (code : List Char) (h : ∃ c ∈ code, Charnos.isSp c = false) :
+    (Charnos.trimSpan code).1 < (Charnos.trimSpan code).2 ∧ (Charnos.trimSpan code).2 ≤ code.length ∧
+    (∀ c ∈ code.take (Charnos.trimSpan code).1, c = ' ') ∧ (∀ c ∈ code.drop (Charnos.trimSpan code).2, c = ' ') ∧
+    (∀ c, code[(Charnos.trimSpan code).1]? = some c → c ≠ ' ') ∧
+    (∀ c, code[(Charnos.trimSpan code).2 - 1]? = some c → c ≠ ' ') := Charnos.trim_spec code h
+
+/-- the decorator look-behind moves the start by at most one character and only onto an `@` of a definition;
+`keep_first_indent` extends it over blanks only -/
+theorem lookbehind_and_indent (src : List Char) (s : Nat) (isDef : Bool) :
+    ((if 0 < s && (src.getD (s - 1) ' ' == '@') && isDef then s - 1 else s) = s ∨
+      ((if 0 < s && (src.getD (s - 1) ' ' == '@') && isDef then s - 1 else s) + 1 = s ∧
+        src.getD (if 0 < s && (src.getD (s - 1) ' ' == '@') && isDef then s - 1 else s) ' ' = '@' ∧ isDef = true)) ∧
+    (∀ c ∈ Charnos.slice src (s - Charnos.countLeading Charnos.isSp (src.take s).reverse) s, c = ' ') :=
+  ⟨Charnos.lookbehind_spec src s isDef, Charnos.keepIndent_only_blanks src s⟩
+
+/-- non-vacuity: `x = foo( 1 )  ` - the argument list text `( 1 )` trimmed... the node text " 1 " keeps "1" -/
+example : Charnos.trimSpan "  1 ".toList = (2, 3) := by decide
+example : Charnos.getCharnos "@dec\ndef g():\n    return foo(1)\n".toList ⟨1, 1⟩ (some ⟨3, 17⟩) true false = (0, 31) := by decide
 
 /-- non-vacuity: "é = 1; y = foo(1)" — byte column 11 on a line with one 2-byte character is character 10 -/
 example : byteColToChar "é = 1; y = foo(1)".toList 11 = 10 := by decide
